@@ -299,16 +299,16 @@ Section Proofs.
         destruct Hh as [Hh|Hh]; [contradiction|]. eapply hash_at_determines; eauto.
       + destruct (k <? fl_depth fl) eqn:Hd.
         * assert (k = 0) by lia. subst k.
-          destruct h; [exact Hag|]. apply Z.ltb_lt in Hd. replace (Z.max 0 (0 - fl_depth fl)) with 0 in Hag by lia. exact Hag.
+          apply Z.ltb_lt in Hd. replace (Z.max 0 (0 - fl_depth fl)) with 0 in Hag by lia. exact Hag.
         * apply Z.ltb_ge in Hd. assert (fl_depth fl = 0) by lia.
-          destruct h; [exact Hag|]. replace (Z.max 0 (k - fl_depth fl)) with k in Hag by lia. exact Hag.
+          replace (Z.max 0 (k - fl_depth fl)) with k in Hag by lia. exact Hag.
     - intros Hn. destruct (num_reorged_pos k h _ Hn) as (Hnum & Hpar & Hval).
       rewrite node_number in Hnum. fold n in Hval.
       assert (Hk' : k - n = Z.max 0 (k - fl_depth fl) /\ k - n < k).
       { rewrite Hval. destruct (k <? fl_depth fl) eqn:Hd; [apply Z.ltb_lt in Hd|apply Z.ltb_ge in Hd]; unfold n in *; lia. }
       destruct Hk' as [Hk'eq Hk'lt].
       split; [lia|]. split; [exact Hnum|].
-      destruct h; [eapply agree_upto_le; [exact Hag|lia]|]. rewrite Hk'eq. exact Hag.
+      rewrite Hk'eq. exact Hag.
   Qed.
 
   Lemma reorg_phase_exact (v w : view) st db :
@@ -341,9 +341,9 @@ Section Proofs.
           destruct Hh as [Hh|Hh]; [contradiction|]. eapply hash_at_determines; eauto.
         - destruct (k <? fl_depth fl) eqn:Hd.
           + assert (k = 0) by lia. subst k.
-            destruct h; [exact Hag|]. apply Z.ltb_lt in Hd. replace (Z.max 0 (0 - fl_depth fl)) with 0 in Hag by lia. exact Hag.
+            apply Z.ltb_lt in Hd. replace (Z.max 0 (0 - fl_depth fl)) with 0 in Hag by lia. exact Hag.
           + apply Z.ltb_ge in Hd. assert (fl_depth fl = 0) by lia.
-            destruct h; [exact Hag|]. replace (Z.max 0 (k - fl_depth fl)) with k in Hag by lia. exact Hag. }
+            replace (Z.max 0 (k - fl_depth fl)) with k in Hag by lia. exact Hag. }
       rewrite Hrows. apply (rows_of_agree E admissible w v k); [exact Hagk|exact Hfs|lia].
     - (* rollback *)
       apply Z.leb_gt in Hn. destruct (num_reorged_pos k h _ Hn) as (Hnum & Hpar & Hval).
@@ -353,7 +353,7 @@ Section Proofs.
       { rewrite Hval. destruct (k <? fl_depth fl) eqn:Hd; [apply Z.ltb_lt in Hd|apply Z.ltb_ge in Hd]; lia. }
       destruct Hk' as [Hk'eq Hk'lt].
       assert (Hagk' : agree_upto w v (k - n)).
-      { destruct h; [eapply agree_upto_le; [exact Hag|lia]|]. rewrite Hk'eq. exact Hag. }
+      { rewrite Hk'eq. exact Hag. }
       assert (Hst' : rollback_to st (k - n) = mkstate (Some (k - n, [])) (rows_of v fs (k - n))).
       { unfold rollback_to. f_equal. rewrite Hrows. rewrite rows_of_rollback by lia.
         apply (rows_of_agree E admissible w v (k - n)); [exact Hagk'|exact Hfs|lia]. }
